@@ -23,13 +23,16 @@ FIELDS = {"CompiledActive": "active", "CompiledPolar": "polar", "CompiledMask": 
 
 
 def stale_fields(st):
-    """which frozen fields differ between the traced graph and the current model state"""
+    """which frozen fields differ between a traced graph and the current model state"""
     g = st.get("graph")
-    if g in (None, "None"):
+    if not g:
         return []
     m = st["m"]
     cur = {"active": frozenset(m["sel"]), "polar": m["polar"], "maskv": m["maskv"], "maskFactor": m["maskFactor"]}
-    return sorted(k for k in cur if g[k] != cur[k])
+    out = set()
+    for snap in g:
+        out |= {k for k in cur if snap[k] != cur[k]}
+    return sorted(out)
 
 
 def run(ctx):
